@@ -24,6 +24,8 @@ val compOpp : comparison -> comparison
 
 val add : nat -> nat -> nat
 
+val sub : nat -> nat -> nat
+
 module Nat :
  sig
   val eqb : nat -> nat -> bool
@@ -41,15 +43,27 @@ module Nat :
   val div : nat -> nat -> nat
  end
 
+val tl : 'a1 list -> 'a1 list
+
 val nth : nat -> 'a1 list -> 'a1 -> 'a1
+
+val rev : 'a1 list -> 'a1 list
+
+val map : ('a1 -> 'a2) -> 'a1 list -> 'a2 list
 
 val flat_map : ('a1 -> 'a2 list) -> 'a1 list -> 'a2 list
 
+val fold_left : ('a1 -> 'a2 -> 'a1) -> 'a2 list -> 'a1 -> 'a1
+
 val existsb : ('a1 -> bool) -> 'a1 list -> bool
+
+val filter : ('a1 -> bool) -> 'a1 list -> 'a1 list
 
 val firstn : nat -> 'a1 list -> 'a1 list
 
 val skipn : nat -> 'a1 list -> 'a1 list
+
+val repeat : 'a1 -> nat -> 'a1 list
 
 type positive =
 | XI of positive
@@ -103,6 +117,10 @@ module Z :
   val leb : z -> z -> bool
 
   val ltb : z -> z -> bool
+
+  val geb : z -> z -> bool
+
+  val gtb : z -> z -> bool
 
   val eqb : z -> z -> bool
 
@@ -365,3 +383,236 @@ val admissible :
 val idh : bytes -> bytes
 
 val check_exit : bool list -> z
+
+type kind =
+| KBool
+| KIarf
+| KLineEnd
+| KTokenPos
+| KNum of (z * z) option
+| KUnum of (z * z) option
+| KString
+
+type value =
+| VBool of bool
+| VIarf of z
+| VLineEnd of z
+| VTokenPos of z
+| VNum of z
+| VUnum of z
+| VStr of z list
+
+type optdef = { o_name : z list; o_kind : kind; o_def : value }
+
+type bytes0 = z list
+
+val beqb : bytes0 -> bytes0 -> bool
+
+val tolower : z -> z
+
+val to_lower : bytes0 -> bytes0
+
+val beqb_ci : bytes0 -> bytes0 -> bool
+
+val is_space : z -> bool
+
+val is_arg_sep : z -> bool
+
+val is_quote : z -> bool
+
+type sstate =
+| SSkip
+| SQuote of z * bytes0
+| SQuoteEsc of z * bytes0
+| SAfterQ
+| SWord of bytes0
+| SWordEsc of bytes0
+
+type split_res =
+| SOk of bytes0 list
+| SUnterminated
+| SUnexpected
+
+val split : sstate -> bytes0 list -> bytes0 -> split_res
+
+val split_args : bytes0 -> split_res
+
+type diag =
+| DUnterminated
+| DUnexpectedText
+| DFewArgs of bytes0
+| DUnknownOption of bytes0
+| DUnknownType of bytes0
+| DUnknownLang of bytes0
+| DBadValue of bytes0
+| DBadRef of bytes0 * bytes0
+| DLess of bytes0
+| DGreater of bytes0
+| DDeprecated of bytes0
+| DBadVersion
+| DEmptyInclude
+
+type cstate = { vals : (bytes0 * value) list; kws : (bytes0 * bytes0) list;
+                exts : (bytes0 * bytes0) list; compat : z;
+                includes : bytes0 list }
+
+val init_state : optdef list -> cstate
+
+val lookup_kind : optdef list -> bytes0 -> kind option
+
+val lookup_val : (bytes0 * value) list -> bytes0 -> value option
+
+val set_val :
+  (bytes0 * value) list -> bytes0 -> value -> (bytes0 * value) list
+
+val alias_find : (bytes0 * 'a1) list -> bytes0 -> 'a1 option
+
+val is_digit : z -> bool
+
+val digits : z -> bytes0 -> z * bytes0
+
+val skip_space : bytes0 -> bytes0
+
+val lONG_MAX : z
+
+val clamp : z -> z
+
+val strtol : bytes0 -> z * bytes0
+
+val wrap32s : z -> z
+
+val validate : bytes0 -> (z * z) option -> z -> diag list
+
+val num_of : value -> z option
+
+val mk_num : kind -> z -> value
+
+val read_value :
+  optdef list -> (bytes0 * bool) list -> (bytes0 * z) list -> (bytes0 * z)
+  list -> (bytes0 * z) list -> (bytes0 * value) list -> bytes0 -> kind ->
+  bytes0 -> value option * diag list
+
+val bltb : bytes0 -> bytes0 -> bool
+
+val map_put :
+  (bytes0 * bytes0) list -> bytes0 -> bytes0 -> (bytes0 * bytes0) list
+
+val find_ci : bytes0 list -> bytes0 -> bytes0 option
+
+val compat_find :
+  ((bytes0 * bytes0 option) * z) list -> bytes0 -> z -> bytes0 option option
+
+val set_option :
+  optdef list -> (bytes0 * bool) list -> (bytes0 * z) list -> (bytes0 * z)
+  list -> (bytes0 * z) list -> cstate -> bytes0 -> bytes0 -> cstate * diag
+  list
+
+val with_kws : cstate -> (bytes0 * bytes0) list -> cstate
+
+val with_exts : cstate -> (bytes0 * bytes0) list -> cstate
+
+val t_TYPE : bytes0
+
+val t_MACRO_OPEN : bytes0
+
+val t_MACRO_CLOSE : bytes0
+
+val t_MACRO_ELSE : bytes0
+
+val s_type : bytes0
+
+val s_set : bytes0
+
+val s_file_ext : bytes0
+
+val s_macro_open : bytes0
+
+val s_macro_close : bytes0
+
+val s_macro_else : bytes0
+
+val s_include : bytes0
+
+val s_using : bytes0
+
+val split_dot : bytes0 -> bytes0 -> bytes0 list
+
+val stoi : bytes0 -> z
+
+val file_ext_loop :
+  bytes0 list -> cstate -> bytes0 -> bytes0 list -> cstate * diag list
+
+val process_line :
+  optdef list -> (bytes0 * bool) list -> (bytes0 * z) list -> (bytes0 * z)
+  list -> (bytes0 * z) list -> ((bytes0 * bytes0 option) * z) list -> bytes0
+  list -> bytes0 list -> cstate -> bytes0 -> cstate * diag list
+
+val load_lines :
+  optdef list -> (bytes0 * bool) list -> (bytes0 * z) list -> (bytes0 * z)
+  list -> (bytes0 * z) list -> ((bytes0 * bytes0 option) * z) list -> bytes0
+  list -> bytes0 list -> cstate -> nat -> bytes0 list ->
+  cstate * (nat * diag) list
+
+val line_printable : bytes0 -> bool
+
+val dec_digits : nat -> z -> bytes0 -> bytes0
+
+val to_dec : z -> bytes0
+
+val assoc_z : (z * bytes0) list -> z -> bytes0
+
+val escape : bytes0 -> bytes0
+
+val value_str :
+  (z * bytes0) list -> (z * bytes0) list -> (z * bytes0) list -> value ->
+  bytes0
+
+val spaces : nat -> bytes0
+
+val option_line :
+  (z * bytes0) list -> (z * bytes0) list -> (z * bytes0) list ->
+  (bytes0 * value) -> bytes0
+
+val kw_line : (bytes0 * bytes0) -> bytes0
+
+val ext_lines : bytes0 list -> (bytes0 * bytes0) list -> bytes0 list
+
+val save_lines :
+  (z * bytes0) list -> (z * bytes0) list -> (z * bytes0) list -> bytes0 list
+  -> cstate -> bytes0 list
+
+val non_default_count :
+  optdef list -> (z * bytes0) list -> (z * bytes0) list -> (z * bytes0) list
+  -> cstate -> nat
+
+val registry : optdef list
+
+val bool_alias : (z list * bool) list
+
+val iarf_alias : (z list * z) list
+
+val lineend_alias : (z list * z) list
+
+val tokenpos_alias : (z list * z) list
+
+val iarf_names : (z * z list) list
+
+val lineend_names : (z * z list) list
+
+val tokenpos_names : (z * z list) list
+
+val compat_names : ((z list * z list option) * z) list
+
+val lang_names : z list list
+
+val token_names : z list list
+
+val cfg_init : cstate
+
+val cfg_load : cstate -> bytes0 list -> cstate * (nat * diag) list
+
+val cfg_save : cstate -> bytes0 list
+
+val cfg_non_default : cstate -> nat
+
+val cfg_set_option : cstate -> bytes0 -> bytes0 -> cstate * diag list
